@@ -341,8 +341,17 @@ func cmdCheck(args []string) {
 			}
 			if k.Obligation == name || (strings.HasSuffix(k.Obligation, "*") && strings.HasPrefix(name, strings.TrimSuffix(k.Obligation, "*"))) {
 				if k.Match != "" {
+					// the region of a finding is matched against the failing case itself, not against the
+					// per-test summary of all kinds that some tests append
+					d := desc
+					if i := strings.Index(d, " kinds="); i >= 0 {
+						d = d[:i]
+					}
+					if i := strings.Index(d, " shrunk=["); i >= 0 {
+						d = d[:i]
+					}
 					re, err := regexp.Compile(k.Match)
-					if err != nil || !re.MatchString(desc) {
+					if err != nil || !re.MatchString(d) {
 						continue
 					}
 				}
